@@ -647,7 +647,7 @@ class DispatchWorld:
     props = ('C03', 'C04')
     levels = {'C03': 'exploration', 'C04': 'exploration'}
     chunk = 400
-    budget = {'quick': dict(runs=24000, wall=45.0), 'thorough': dict(runs=1200000, wall=900.0)}
+    budget = {'quick': dict(runs=24000, wall=180.0), 'thorough': dict(runs=1200000, wall=900.0)}
     time_unit = 'n/a: logical steps only (no clock in synchronous dispatch)'
     state_measure = 'distinct (operation kind, deferring?, watcher-call structure) triples per top-level operation'
     components = {
